@@ -32,6 +32,11 @@ def plan(tier):
             bound = 2 if (deep and base and cfg['d'] == 3 and cfg['n_inner'] == 2 and cfg['imputer'] == 'joint'
                           and cfg['names'] == 'str') else 1
             tasks.append((cfg, T, bound, True, 3 if (deep and base and bound == 1) else 2))
+    # long streams (5 observations, 4 explained) around the two base executions: state carried over several steps
+    for cfg in sc.product_configs('pfi', 'quick'):
+        if cfg['d'] == 2 and cfg['n_inner'] == 1 and cfg['storage'] == 'Batch' and cfg['names'] == 'str' \
+                and cfg['imputer'] in ('joint', 'default'):
+            tasks.append((cfg, 5 if not deep else 6, 0, False, 2))
     tasks.sort(key=lambda t: -(t[2] or 0))
     return tasks
 
@@ -51,7 +56,7 @@ class PfiRef:
         raise Violation(f"{PID}/{key}", f"IncrementalPFI[{sc.cfg_desc(self.cfg)}] call {t + 1}: {what}",
                         {'cfg': self.cfg})
 
-    def step(self, t, x, y, ret, events, n_expected):
+    def step(self, t, x, y, ret, events, n_expected, kw=None):
         h, names, ex = self.h, self.h.names, self.h.expl
         imputes = [e for e in events if e[0] == 'impute']
         if t == 0:
@@ -61,6 +66,8 @@ class PfiRef:
             if not dict_eq(dict(ret), {}) or not dict_eq(ex.importance_values, {}):
                 self.bad('first-call-values', f"importance values after the first call are {ret}", t)
             stored = sc_rows(h)
+            if (kw or {}).get('update_storage') is False or stored is None:
+                return
             if not stored or not dict_eq(stored[-1], x) or (len(stored) != 1 and not getattr(h, 'prefilled', False)):
                 self.bad('first-call-storage', f"the first observation must seed the storage; it holds {stored}", t)
             return
@@ -125,7 +132,7 @@ def make_oracle(cfg, h):
     ref = PfiRef(cfg, h)
 
     def oracle(t, x, y, ret, events, n_exp, kw):
-        ref.step(t, x, y, ret, events, n_exp)
+        ref.step(t, x, y, ret, events, n_exp, kw)
     oracle.ref = ref
     return oracle
 
